@@ -280,6 +280,71 @@ def _lt_eval(e, rel):
     raise ValueError(e)
 
 
+def _helper_lex_ok(db, helper_qn):
+    """is the two-argument helper a lexicographic comparison of its arguments' element ranges?  (True, how) | (False, why) | (None, why)"""
+    fns = [f for f in db.fns(helper_qn) if len(f.get("params", [])) == 2 and f.get("body") is not None]
+    if not fns:
+        return (None, "no body of %s analysed" % helper_qn)
+    fn = fns[0]
+    u = fn["_unit"]
+    a, b = fn["params"][0]["name"], fn["params"][1]["name"]
+    rets = [r for r in F.walk(fn.get("body"), into_lambdas=False) if r.get("k") == "return"]
+    if len(rets) == 1:
+        t = T.show(T.snorm(u, fn, rets[0]["e"])).replace(" ", "")
+        m = re.match(r"^lexicographical_compare\((.+)\.begin\(\),(.+)\.end\(\),(.+)\.begin\(\),(.+)\.end\(\)\)$", t)
+        if m and m.group(1) == m.group(2) and m.group(3) == m.group(4) and a in m.group(1) and b in m.group(3) and b not in m.group(1) and a not in m.group(3):
+            return (True, "std::lexicographical_compare over both element ranges")
+    # a hand-written loop: interpret it
+    cfg = sx.Config(inline_prefixes=("fcppt::optional::", "fcppt::algorithm::", "fcppt::loop::"), pure=("fcppt::math::to_array",), loop_bound=2)
+    try:
+        ps = sx.Interp(db, cfg).paths(fn)
+    except sx.Unsupported as e:
+        return (None, "outside the interpreted fragment: %s" % e)
+    for p in ps:
+        begins = {("#%d:begin" % i): sx.show(e[1][0]) for i, e in enumerate(p.events, 1) if e[0].split("<")[0].endswith("::begin") or e[0].split("<")[0].endswith("::cbegin")}
+
+        def is_elem(txt, side, k):
+            txt = txt.replace(" ", "")
+            pat = "to_array(%s)" % side
+            if txt in ("%s[%d]" % (pat, k), "%s[%d]" % (side, k)):
+                return True
+            m2 = re.match(r"^deref\(\(?(#\d+:c?begin)(?:\+(\d+)\))?\)$", txt)
+            if m2 and m2.group(1) in begins and (begins[m2.group(1)] in (pat, side)) and int(m2.group(2) or 0) == k:
+                return True
+            return False
+        k = 0
+        decided = None
+        for d, v in p.decisions:
+            t = sx.show(d)
+            if t.startswith("more("):
+                continue
+            m3 = re.match(r"^\((.+) (==|!=|<) (.+)\)$", t)
+            if not m3:
+                return (None, "decision %s is not an element comparison" % t)
+            l, op, r = m3.group(1), m3.group(2), m3.group(3)
+            if not (is_elem(l, a, k) and is_elem(r, b, k)) and not (is_elem(l, b, k) and is_elem(r, a, k) and op != "<"):
+                return (False, "step %d compares %s with %s; a lexicographic comparison compares element %d of the left operand with element %d of the right" % (k, l, r, k, k))
+            equal = v if op == "==" else (not v if op == "!=" else None)
+            if equal is None:
+                return (None, "unexpected comparison %s" % t)
+            if equal:
+                k += 1
+            else:
+                decided = k
+                break
+        if p.outcome[0] != "return":
+            continue
+        out = sx.show(p.outcome[1]).replace(" ", "")
+        if decided is None:
+            if out not in ("0", "false"):
+                return (False, "all compared elements are equal but the result is %s" % out)
+        else:
+            m4 = re.match(r"^\((.+)<(.+)\)$", out)
+            if not m4 or not (is_elem(m4.group(1), a, decided) and is_elem(m4.group(2), b, decided)):
+                return (False, "the first difference is at element %d but the result is %s" % (decided, out))
+    return (True, "hand-written loop: first differing element decides (paths of a twice-unrolled range)")
+
+
 def rule_lt_lex(rep, db):
     import itertools
     seen = set()
@@ -308,6 +373,16 @@ def rule_lt_lex(rep, db):
                     ka, sa = _side_key(ops[0], pa, pb)
                     kb, sb = _side_key(ops[1], pa, pb)
                     if ka == kb and sa == "a" and sb == "b":
+                        hq = str(t[1])
+                        if hq.startswith("fcppt::"):
+                            okh, how = _helper_lex_ok(db, hq)
+                            if okh is False:
+                                rep.fail("LT-LEX", key, F.primary_site(fn), F.describe(fn)[:160], why="operator< delegates to %s, which is not a lexicographic comparison: %s" % (hq, how))
+                                continue
+                            if okh is None:
+                                rep.note("LT-LEX: helper %s of %s not decided (%s)" % (hq, key, how))
+                            rep.ok("LT-LEX", key, F.primary_site(fn), F.describe(fn)[:160], how="delegates(%s(a, b)): %s" % (hq.split("::")[-1], how if okh else "helper not decided"))
+                            continue
                         rep.ok("LT-LEX", key, F.primary_site(fn), F.describe(fn)[:160], how="delegates(%s(a, b))" % str(t[1]).split("::")[-1])
                         continue
                     if ka == kb and sa == "b":
@@ -350,7 +425,13 @@ def rule_lt_lex(rep, db):
 
 
 
-def rule_eq_form(rep, db):
+# accessors that are not plain field getters but determine the value together with the other compared components
+INJECTIVE_VIEWS = {
+    "fcppt::math::box::object": {"size": "size() = max - pos: given pos it determines max", "pos": "", "max": ""},
+}
+
+
+def rule_eq_form(rep, db, acc=None):
     """operator== of a value type is the CONJUNCTION of its component equalities: truth table over the component-equality
     atoms (and any other atom the expression consults, treated as free)"""
     import itertools
@@ -401,6 +482,13 @@ def rule_eq_form(rep, db):
                     ka, sa = _side_key(l, pa, pb)
                     kb, sb = _side_key(r, pa, pb)
                     if ka == kb and sa != sb:
+                        m_ = re.match(r"^@\.(\w+)\(\)$", ka)
+                        if m_ and acc is not None:
+                            meth = m_.group(1)
+                            if ("%s::%s" % (pts[0], meth)) not in acc and meth not in INJECTIVE_VIEWS.get(pts[0], {}) and \
+                                    meth not in ("get", "impl", "begin", "end", "storage", "std_ptr", "array", "value", "children"):
+                                # a derived quantity (e.g. a cell count): equality of it is a condition, not a component equality
+                                return ("F", "%s equal" % ka)
                         return ("E" if op == "==" else "N", ka)
                 except _NoParse:
                     pass
@@ -463,7 +551,7 @@ def main(rep, tier, only):
     rep.rule("OE-TABLE", "decision tables of optional ==, <, either ==", floor=3)
     acc = accessor_map(db)
     rule_lt_lex(rep, db)
-    rule_eq_form(rep, db)
+    rule_eq_form(rep, db, acc)
     # ------------------------------------------------------------------ strong_typedef mirror
     seen = set()
     for fn in db.functions:
